@@ -1494,9 +1494,13 @@ func (self *Node) Load() error {
 func (self *Node) loadSelf() (bool, error) {
 	switch self.t {
 	case _V_ARRAY_LAZY:
-		self.loadAllIndex(true)
+		if err := self.loadAllIndex(true); err != nil {
+			return false, err
+		}
 	case _V_OBJECT_LAZY:
-		self.loadAllKey(true)
+		if err := self.loadAllKey(true); err != nil {
+			return false, err
+		}
 	case V_ERROR:
 		return false, self
 	case V_NONE:
